@@ -25,14 +25,33 @@ pub fn generate(shard: usize, src: &mut Src) -> OptCase {
     // content: valid for `conc`, sometimes deliberately ambiguous
     let mut content = gen_valid(conc, src).content;
     if src.chance(1, 4) {
-        content = src.pick(&["DEUTDEFF", "/ACC123\nDEUTDEFF", "/ACC123\nJOHN DOE", "1/JOHN DOE\n2/MAIN STREET", "/ACC", "JOHN DOE\nDEUTDEFFXXX", "ACCOUNT123\nDEUTDEFF", "240101USD100,", "USD100,", "/C/12345\nDEUTDEFF"]).to_string();
+        content = src
+            .pick(&[
+                "DEUTDEFF",
+                "/ACC123\nDEUTDEFF",
+                "/ACC123\nJOHN DOE",
+                "1/JOHN DOE\n2/MAIN STREET",
+                "/ACC",
+                "JOHN DOE\nDEUTDEFFXXX",
+                "ACCOUNT123\nDEUTDEFF",
+                "240101USD100,",
+                "USD100,",
+                "/C/12345\nDEUTDEFF",
+            ])
+            .to_string();
     }
     let letter = match src.below(8) {
         0 => None,
         1 => Some(src.pick_char("EGHJMNPRSTZ").to_string()), // mostly foreign letters
         _ => Some(members[src.below(members.len())].0.to_string()),
     };
-    OptCase { family: fam.to_string(), base: base.to_string(), letter, content_for: conc.to_string(), content }
+    OptCase {
+        family: fam.to_string(),
+        base: base.to_string(),
+        letter,
+        content_for: conc.to_string(),
+        content,
+    }
 }
 
 pub fn oracle(c: &OptCase, obs: &mut Obs) -> Vec<Violation> {
@@ -41,7 +60,11 @@ pub fn oracle(c: &OptCase, obs: &mut Obs) -> Vec<Violation> {
     let members = FAMILIES.iter().find(|(e, _, _)| *e == c.family).unwrap().2;
     let fam = &c.family;
     // which members' own parsers accept the content
-    let accepting: Vec<&str> = members.iter().filter(|(_, conc)| (field_ops(conc).parse)(&c.content).is_ok()).map(|(l, _)| *l).collect();
+    let accepting: Vec<&str> = members
+        .iter()
+        .filter(|(_, conc)| (field_ops(conc).parse)(&c.content).is_ok())
+        .map(|(l, _)| *l)
+        .collect();
     if !accepting.is_empty() {
         obs.nontrivial_str(&format!("{fam}|{:?}|{}", c.letter, c.content));
     }
@@ -54,22 +77,42 @@ pub fn oracle(c: &OptCase, obs: &mut Obs) -> Vec<Violation> {
     match &c.letter {
         Some(l) => {
             let in_family = members.iter().any(|(m, _)| m == l);
-            let r = (ops.parse_variant)(&c.content, if l.is_empty() { None } else { Some(l.as_str()) }, Some(&c.base));
+            let r = (ops.parse_variant)(&c.content, Some(l.as_str()), Some(&c.base));
             match r {
                 Ok(v) => {
                     let tag = split_swift(&v.swift).map(|x| x.0).unwrap_or_default();
                     let want = format!("{}{}", c.base, l);
                     if !in_family {
-                        out.push(viol(format!("C14|{fam}|foreign-letter-coerced"), format!("letter {l:?} is not an option of {fam}, yet {:?} parsed as {tag}", c.content)));
+                        out.push(viol(
+                            format!("C14|{fam}|foreign-letter-coerced"),
+                            format!(
+                                "letter {l:?} is not an option of {fam}, yet {:?} parsed as {tag}",
+                                c.content
+                            ),
+                        ));
                     } else if tag != want {
-                        out.push(viol(format!("C14|{fam}|letter-{}-gives-{}", if l.is_empty() { "none" } else { l }, tag), format!("{:?} with letter {l:?} came back as {tag}", c.content)));
+                        out.push(viol(
+                            format!(
+                                "C14|{fam}|letter-{}-gives-{}",
+                                if l.is_empty() { "none" } else { l },
+                                tag
+                            ),
+                            format!("{:?} with letter {l:?} came back as {tag}", c.content),
+                        ));
                     } else if !accepting.contains(&l.as_str()) {
                         out.push(viol(format!("C14|{fam}|accepts-what-{}-rejects", want), format!("the concrete parser of {want} rejects {:?} but the family accepts it with that letter", c.content)));
                     }
                 }
                 Err(e) => {
                     if in_family && accepting.contains(&l.as_str()) && !e.is_panic() {
-                        out.push(viol(format!("C14|{fam}|rejected-valid|{}{}", c.base, l), format!("{:?} is valid for option {l:?} but rejected: {}", c.content, e.text())));
+                        out.push(viol(
+                            format!("C14|{fam}|rejected-valid|{}{}", c.base, l),
+                            format!(
+                                "{:?} is valid for option {l:?} but rejected: {}",
+                                c.content,
+                                e.text()
+                            ),
+                        ));
                     }
                 }
             }
@@ -80,20 +123,43 @@ pub fn oracle(c: &OptCase, obs: &mut Obs) -> Vec<Violation> {
                 let (tag, body) = split_swift(&v.swift).unwrap_or_default();
                 let l2 = tag.strip_prefix(c.base.as_str()).unwrap_or("?").to_string();
                 match members.iter().find(|(m, _)| *m == l2) {
-                    None => out.push(viol(format!("C14|{fam}|untagged-gives-unknown-option|{tag}"), format!("{:?} -> {}", c.content, v.swift))),
+                    None => out.push(viol(
+                        format!("C14|{fam}|untagged-gives-unknown-option|{tag}"),
+                        format!("{:?} -> {}", c.content, v.swift),
+                    )),
                     Some((_, conc)) => {
                         if (field_ops(conc).parse)(&c.content).is_err() {
-                            out.push(viol(format!("C14|{fam}|untagged-gives-{tag}-which-rejects-it"), format!("{:?} returned as {tag}, whose own parser rejects it", c.content)));
+                            out.push(viol(
+                                format!("C14|{fam}|untagged-gives-{tag}-which-rejects-it"),
+                                format!(
+                                    "{:?} returned as {tag}, whose own parser rejects it",
+                                    c.content
+                                ),
+                            ));
                         }
-                        match (ops.parse_variant)(&body, if l2.is_empty() { None } else { Some(l2.as_str()) }, Some(&c.base)) {
+                        match (ops.parse_variant)(&body, Some(l2.as_str()), Some(&c.base)) {
                             Ok(v2) => {
                                 if v2.json != v.json {
-                                    out.push(viol(format!("C14|{fam}|untagged-roundtrip-differs|{tag}"), format!("{:?}: {} vs {}", c.content, v.json, v2.json)));
+                                    out.push(viol(
+                                        format!("C14|{fam}|untagged-roundtrip-differs|{tag}"),
+                                        format!("{:?}: {} vs {}", c.content, v.json, v2.json),
+                                    ));
                                 }
                             }
                             Err(e) => {
-                                if !e.is_panic() && spec_of(conc).g.verdict(&c.content) != crate::spec::Verdict::MustReject {
-                                    out.push(viol(format!("C14|{fam}|untagged-roundtrip-rejected|{tag}"), format!("{:?} -> {:?} rejected with its own letter: {}", c.content, v.swift, e.text())));
+                                if !e.is_panic()
+                                    && spec_of(conc).g.verdict(&c.content)
+                                        != crate::spec::Verdict::MustReject
+                                {
+                                    out.push(viol(
+                                        format!("C14|{fam}|untagged-roundtrip-rejected|{tag}"),
+                                        format!(
+                                            "{:?} -> {:?} rejected with its own letter: {}",
+                                            c.content,
+                                            v.swift,
+                                            e.text()
+                                        ),
+                                    ));
                                 }
                             }
                         }
@@ -110,14 +176,24 @@ pub fn msg_oracle(c: &MutCase, obs: &mut Obs) -> Vec<Violation> {
     let mut out = Vec::new();
     let text = c.text();
     let r = (msg_ops(&c.mt).parse_block4)(&text);
-    obs.class(&format!("msg:{}:{}", c.mutation, if r.is_ok() { "accepted" } else { "rejected" }));
+    obs.class(&format!(
+        "msg:{}:{}",
+        c.mutation,
+        if r.is_ok() { "accepted" } else { "rejected" }
+    ));
     if let Ok(b) = r {
         obs.nontrivial_str(&text);
         let (_, toks) = tokenize(&b.mt_string);
         if toks.len() == c.toks.len() {
             for (a, o) in c.toks.iter().zip(toks.iter()) {
                 if a.tag != o.tag && a.tag[0..2] == o.tag[0..2] {
-                    out.push(viol(format!("C14|msg|MT{}|{}-became-{}", c.mt, a.tag, o.tag), format!("field written as {} serialised as {}:\n{}", a.tag, o.tag, text)));
+                    out.push(viol(
+                        format!("C14|msg|MT{}|{}-became-{}", c.mt, a.tag, o.tag),
+                        format!(
+                            "field written as {} serialised as {}:\n{}",
+                            a.tag, o.tag, text
+                        ),
+                    ));
                 }
             }
         }
@@ -128,7 +204,15 @@ pub fn msg_oracle(c: &MutCase, obs: &mut Obs) -> Vec<Violation> {
 pub fn run(ctx: &Ctx) {
     ctx.add_rule("field level: the 25 option families x (each letter of the family | a foreign letter | no letter) x contents valid for a member of the family (incl. deliberately ambiguous contents: BIC-shaped name lines, single slash-lines, account+BIC, numbered lines); message level: valid messages (all multi-option slots, every documented letter) and messages with one option letter replaced by a foreign one; non-trivial = content accepted by at least one member; distinct by (family, letter, content)");
     let to_json = |c: &OptCase| serde_json::to_value(c).unwrap();
-    ctx.run_generated("family", FAMILIES.len(), ctx.n(6000, 120000), 300, &generate, &oracle, &to_json);
+    ctx.run_generated(
+        "family",
+        FAMILIES.len(),
+        ctx.n(6000, 120000),
+        300,
+        &generate,
+        &oracle,
+        &to_json,
+    );
     let to_json2 = |c: &MutCase| serde_json::to_value(c).unwrap();
     ctx.run_generated(
         "message",
